@@ -512,7 +512,7 @@ def setup(chk, want_emu=False):
     ctx = Ctx()
     # unit rtbuf: the buffer functions of src/rt/ovni.c, statement by statement (Gen/RtBuf_gen.v, proved equal to the
     # hand model in Proofs/RtBufGenProofs.v: C01_buffer_ops_from_source, C01_runs_from_source, C02_generated_code_valid_stream)
-    broken = common.translate(["codec", "rtbuf", "tables", "loader", "loader_step"] if chk.prop == "C02" else ["codec", "rtbuf"])
+    broken = common.translate(["codec", "rtbuf", "tables", "loader", "loader_step", "rtmeta"] if chk.prop == "C02" else ["codec", "rtbuf"])
     ctx.broken = broken
     if broken:
         chk.proof_broken = {"kind": "translator", "messages": broken}
